@@ -489,7 +489,10 @@ outer:
 					}
 				}
 				if touchedByNewPcaps {
-					streamCategory = &resetStreams
+					// only a stream that is already indexed can be reset, the others are new
+					if id != nextStreamID {
+						streamCategory = &resetStreams
+					}
 					break
 				}
 			}
